@@ -17,7 +17,9 @@ def get_inf(exe):
     t = proto.run_harness(exe, ["inf"])
     if t.crashed:
         raise RuntimeError("harness cannot start: " + t.crashed)
-    return proto.get(t[0][1], "pinf")[0], proto.get(t[0][1], "ninf")[0]
+    pinf, ninf = proto.get(t[0][1], "pinf")[0], proto.get(t[0][1], "ninf")[0]
+    proto.INF_LINE = "inf %s %s" % (pinf, ninf)
+    return pinf, ninf
 
 
 def parse_trace(block):
